@@ -224,6 +224,11 @@ func (s *Solver) Check(conj []*Term, wantModel bool, kind QueryKind) Result {
 		if r2.Status != "unknown" {
 			res = r2
 		}
+	} else if res.Status == "unknown" && kind == QFeas {
+		r2 := feasFallback(body.String(), names, e.vars, wantModel)
+		if r2.Status != "unknown" {
+			res = r2
+		}
 	}
 	d := time.Since(t0)
 	atomic.AddInt64(&stats.TimeNS, int64(d))
@@ -310,12 +315,25 @@ var fallbackBackends = []backend{
 }
 
 func raceFallback(body string, names []string, vars []*Term, wantModel bool) Result {
-	ctx, cancel := context.WithTimeout(context.Background(), time.Duration(raceTimeoutMS)*time.Millisecond)
+	return raceBackends(fallbackBackends, raceTimeoutMS, body, names, vars, wantModel)
+}
+
+// feasFallback: a branch-feasibility query the primary z3 gave up on is put to the two other
+// solvers for a few seconds; they often refute in milliseconds what z3 4.8 times out on (FP mixed
+// with uninterpreted functions), which saves exploring an infeasible branch.
+func feasFallback(body string, names []string, vars []*Term, wantModel bool) Result {
+	return raceBackends(fallbackBackends[:2], feasFallbackMS, body, names, vars, wantModel)
+}
+
+var feasFallbackMS = 3000
+
+func raceBackends(backends []backend, timeoutMS int, body string, names []string, vars []*Term, wantModel bool) Result {
+	ctx, cancel := context.WithTimeout(context.Background(), time.Duration(timeoutMS)*time.Millisecond)
 	defer cancel()
-	ch := make(chan Result, len(fallbackBackends))
+	ch := make(chan Result, len(backends))
 	hasFP := strings.Contains(body, "FloatingPoint")
 	n := 0
-	for _, b := range fallbackBackends {
+	for _, b := range backends {
 		if b.name == "cvc5-bvint" && hasFP {
 			continue
 		}
